@@ -629,7 +629,7 @@ LoopWhile(s, cx, st, labels, V, first) ==
                       V2 == IF c.v # Empty THEN c.v ELSE V
                   IN  IF c.ty \in {"throw", "undecided"} THEN c
                       ELSE IF LoopBreaks(c, labels) THEN Normal(c.st, V2)
-                      ELSE IF ~LoopContinues(c, labels) THEN UpdV(c, V)
+                      ELSE IF ~LoopContinues(c, labels) THEN c      \* 12.6.x: "if stmt is an abrupt completion, return stmt"
                       ELSE LoopWhile(s, cx, c.st, labels, V2, FALSE)
 
 (* 12.6.3 for *)
@@ -642,7 +642,7 @@ LoopFor(s, cx, st, labels, V, dummy) ==
                       V2 == IF c.v # Empty THEN c.v ELSE V
                   IN  IF c.ty \in {"throw", "undecided"} THEN c
                       ELSE IF LoopBreaks(c, labels) THEN Normal(c.st, V2)
-                      ELSE IF ~LoopContinues(c, labels) THEN UpdV(c, V)
+                      ELSE IF ~LoopContinues(c, labels) THEN c      \* 12.6.x: "if stmt is an abrupt completion, return stmt"
                       ELSE LET u == IF s.update = <<>> THEN Ok(c.st, Undef) ELSE Eval(s.update[1], cx, c.st)
                            IN  IF u.thr # "" THEN FromExpr(u) ELSE LoopFor(s, cx, u.st, labels, V2, dummy)
 
@@ -660,7 +660,7 @@ LoopForIn(s, cx, st, labels, V, o, names) ==
                                V2 == IF c.v # Empty THEN c.v ELSE V
                            IN  IF c.ty \in {"throw", "undecided"} THEN c
                                ELSE IF LoopBreaks(c, labels) THEN Normal(c.st, V2)
-                               ELSE IF ~LoopContinues(c, labels) THEN UpdV(c, V)
+                               ELSE IF ~LoopContinues(c, labels) THEN c      \* 12.6.x: "if stmt is an abrupt completion, return stmt"
                                ELSE LoopForIn(s, cx, c.st, labels, V2, o, Tail(names))
 
 (* 12.11 switch: find the matching clause (or default), then fall through *)
@@ -872,8 +872,10 @@ Outcome(c) ==
       [] c.ty = "throw" ->
             (LET nm == ErrName(c.st, c.v)
              IN  IF nm # <<>> THEN [und |-> FALSE, log |-> c.st.log, thr |-> nm, v |-> Undef]
-                 ELSE [und |-> FALSE, log |-> c.st.log, thr |-> <<118>>, v |-> Proj(c.st, c.v)])      \* "v": a thrown non-error value
-      [] OTHER -> [und |-> FALSE, log |-> c.st.log, thr |-> <<>>, v |-> Proj(c.st, IF c.v = Empty THEN Undef ELSE c.v)]
+                 ELSE IF IsO(c.v) THEN [und |-> TRUE]          \* an uncaught non-error object: its text is not modelled
+                 ELSE [und |-> FALSE, log |-> c.st.log, thr |-> <<118>>, v |-> StrV(OPS!ToStringPrim(c.v))])   \* "v" + String(value)
+      [] c.ty = "normal" -> [und |-> FALSE, log |-> c.st.log, thr |-> <<>>, v |-> Proj(c.st, IF c.v = Empty THEN Undef ELSE c.v)]
+      [] OTHER -> [und |-> TRUE]      \* break/continue/return escaping a program: not generated
 
-RunProgram(body, fuel) == Outcome(RunBody(State0(fuel), body, GlobalCx, FALSE))
+RunProgram(body, fuel, isEval) == Outcome(RunBody(State0(fuel), body, GlobalCx, isEval))
 =============================================================================
